@@ -7,7 +7,8 @@ constructor's defaults read via inspect.signature - the constructor insists on l
 Space (configuration lattice): single ridges: row x x-offset x length {6,20,60,200} x slope {0,+-1/40} x thickness {1,2,3} x
 (ascender,descender) x end-point responses {no,yes} x down-sampling {1,2,4,8}; pairs and triples of ridges over an 8-variant alphabet
 (vertical separation 25 map px) + two ridges on one row; rotated passes: rotations {0,1,2,3} x page shapes {75x125, 125x75, 96x96 map
-px} x down-sampling {1,4} x ridge sets.
+px} x down-sampling {1,4} x ridge sets; page sides modulo the factor: all residue classes for factors {2,3,4} x rotations x page shapes
+(strided stub: ceil-shaped maps; real TorchParseNet.get_maps: round-shaped maps).
 
 (as built, added) adaptive down-sampling: the REAL TorchParseNet.get_maps_with_optimal_resolution (state: last_downsample) around a renderer
 of known pages; ALL histories of pages with 5 print sizes up to depth 2 / 3 x rotation {0, 1}.
@@ -37,7 +38,7 @@ def nabs(x):
 
 MANIFEST = dict(
     technique='explicit-state enumeration of a synthetic detection-map lattice (ridge geometry x heights x end-point responses x down-sampling) on the real LayoutEngine.parse, and of rotation x page shape x ridge sets on the real LayoutEngine.detect with a stub network; geometric oracle + rotation differential',
-    text='Bounded exhaustive: every single ridge of the lattice (4 rows x 2 offsets x 4 lengths x 3 slopes x 3 thicknesses x 3 height pairs x end-point responses on/off) x 4 down-sampling factors, every ordered pair / triple of ridges over an 8-variant alphabet, and two ridges sharing a row; decoding must return exactly one line per ridge with end points within 3 map px, rows within (1 + thickness/2) map px, heights equal to the map values times the factor, and the outline of baseline_to_textline. For rotations 0-3 on non-square and square pages, detect(image, rot) must agree within 1 px with the exact inverse rotation of the layout decoded from the rotated image (regions, baselines, outlines). Added sub-sweeps: two ridges starting on the same row, an independent reference of the outline, histories of pages of different print sizes through the real adaptive down-sampling logic (adaptive on/off x pixel budget exceeded or not), non-default engine options, and maps with 130-300 ridges. Orientation sequences (1,3 / 3,1 / 0,2 / 2,0 / 0,1,3) of one page on ONE engine through the real TorchParseNet.get_maps (image-encoded maps); different print sizes at the two map borders. Wave 10: the same maps object decoded six times; skewed pages whose parallel ridges overlap in rows; the network (stub, and inside the real TorchParseNet) raising an out-of-memory error once during detect in every orientation - a layout that is returned must be the page\'s layout.',
+    text='Bounded exhaustive: every single ridge of the lattice (4 rows x 2 offsets x 4 lengths x 3 slopes x 3 thicknesses x 3 height pairs x end-point responses on/off) x 4 down-sampling factors, every ordered pair / triple of ridges over an 8-variant alphabet, and two ridges sharing a row; decoding must return exactly one line per ridge with end points within 3 map px, rows within (1 + thickness/2) map px, heights equal to the map values times the factor, and the outline of baseline_to_textline. For rotations 0-3 on non-square and square pages, detect(image, rot) must agree within 1 px with the exact inverse rotation of the layout decoded from the rotated image (regions, baselines, outlines). Added sub-sweeps: two ridges starting on the same row, an independent reference of the outline, histories of pages of different print sizes through the real adaptive down-sampling logic (adaptive on/off x pixel budget exceeded or not), non-default engine options, and maps with 130-300 ridges. Orientation sequences (1,3 / 3,1 / 0,2 / 2,0 / 0,1,3) of one page on ONE engine through the real TorchParseNet.get_maps (image-encoded maps); different print sizes at the two map borders. Wave 10: the same maps object decoded six times; skewed pages whose parallel ridges overlap in rows; the network (stub, and inside the real TorchParseNet) raising an out-of-memory error once during detect in every orientation - a layout that is returned must be the page\'s layout. Wave 11: pages whose sides are NOT multiples of the down-sampling factor - every residue class (rows x columns) of the page modulo the factor for factors 2, 3, 4 (thorough: 5, 8 too), in every rotation on every page shape, with the strided stub network (map shape = ceil(side / factor)) and, for the orientations 0,1,2,3 in turn on one engine, through the real TorchParseNet.get_maps (cv2.resize: map shape = round(side / factor)); same rotation differential within 1 px.',
     note='Synthetic piecewise-constant maps (no trained network); ridges separated by >= 25 map px vertically; tolerances as stated.',
     ref='3/C18')
 
@@ -52,7 +53,14 @@ MAP_SHAPE = (120, 260)
 ALPHA8 = [(0, 2, 0, 0, 0, 0), (1, 1, 1, 1, 1, 1), (0, 3, 2, 2, 2, 0), (1, 0, 0, 0, 1, 0), (0, 1, 0, 2, 0, 1), (1, 2, 1, 0, 2, 0),
           (0, 2, 2, 1, 1, 1), (1, 3, 0, 1, 0, 0)]     # (x0, len, slope, thickness, heights, endpoints) indices
 ROT_SHAPES = [(75, 125), (125, 75), (96, 96)]
-BOUNDS = {'quick': dict(ds_single=[1, 4], multi_ds=[2], adaptive_depth=2), 'thorough': dict(ds_single=DSS, multi_ds=[1, 2, 8], adaptive_depth=3)}
+BOUNDS = {'quick': dict(ds_single=[1, 4], multi_ds=[2], adaptive_depth=2, rem_ds=[2, 3, 4], rem_ds_real=[2, 4]),
+          'thorough': dict(ds_single=DSS, multi_ds=[1, 2, 8], adaptive_depth=3, rem_ds=[2, 3, 4, 5, 8], rem_ds_real=[2, 3, 4])}
+# page sides that are NOT multiples of the down-sampling factor: every residue class (rows, columns) of the page modulo the factor, for a single ridge
+# and a pair of ridges (indices into ALPHA8), in every rotation on every page shape.  The maps of the strided stub have ceil(side / ds) rows, those of
+# the real TorchParseNet.get_maps (cv2.resize) round(side / ds): the map shape times the factor is larger / smaller than the page, or equal to it.
+REM_COMBOS = [[1], [5, 2]]
+REM_SEQ = [0, 1, 2, 3]
+REM_KEY = 'page-sides-not-multiples-of-the-down-sampling-factor'
 BOUNDS['replay'] = BOUNDS['quick']
 _ENG = {}
 
@@ -137,6 +145,11 @@ def run_shard(shard, ctx, tier):
             for combo in itertools.product(range(4), repeat=2):
                 for seq in ROT_SEQS:
                     guarded_check(mod, {'rotseq': list(seq), 'shape': shard['shape'], 'ds': ds, 'combo': list(combo)}, ctx)
+        for ds in b['rem_ds_real']:
+            for rh, rw in itertools.product(range(ds), repeat=2):
+                if rh or rw:
+                    for combo in REM_COMBOS:
+                        guarded_check(mod, {'rotseq': list(REM_SEQ), 'shape': shard['shape'], 'ds': ds, 'combo': list(combo), 'rem': [rh, rw]}, ctx)
         return
     if shard['kind'] == 'many':
         for ds in (1, 2):
@@ -172,6 +185,11 @@ def run_shard(shard, ctx, tier):
                     guarded_check(mod, {'rot': shard['rot'], 'shape': shard['shape'], 'ds': ds, 'combo': list(combo)}, ctx)
                     if n == 2 and ROT_SHAPES[shard['shape']][1] >= 96 and combo[0] != combo[1]:
                         guarded_check(mod, {'rot': shard['rot'], 'shape': shard['shape'], 'ds': ds, 'combo': list(combo), 'same_row': 1}, ctx)
+        for ds in b['rem_ds']:
+            for rh, rw in itertools.product(range(ds), repeat=2):
+                if rh or rw or ds not in (1, 4):                 # (the exact multiples at ds 1 / 4 are the sweep above)
+                    for combo in REM_COMBOS:
+                        guarded_check(mod, {'rot': shard['rot'], 'shape': shard['shape'], 'ds': ds, 'combo': list(combo), 'rem': [rh, rw]}, ctx)
 
 
 def ridge_geometry(r, shape):
@@ -437,8 +455,11 @@ def check_rot(case, ctx):
         g1['row'], g1['x0'], g1['x1'], g1['slope'] = g0['row'], 55, 85, 0.0
     maps_r = paint(ridges, shape_m)
     img_r = np.repeat(np.repeat(maps_r, ds, axis=0), ds, axis=1)        # image in the rotated frame
+    rem = tuple(case.get('rem', (0, 0)))
+    if any(rem):                                                        # rem[0] more rows / rem[1] more columns (blank) than a multiple of ds
+        img_r = np.pad(img_r, ((0, rem[0]), (0, rem[1]), (0, 0)))
     img = np.rot90(img_r, k=-k).copy()                                  # the page: rot90(img, k) == img_r
-    ctx.state((k, case['shape'], ds, tuple(case['combo']), case.get('same_row', 0)))
+    ctx.state((k, case['shape'], ds, tuple(case['combo']), case.get('same_row', 0)) + ((rem,) if 'rem' in case else ()))
     eng = copy.copy(engine())
     eng.parsenet = StubParseNet(ds)
     ctx.reseed()
@@ -447,7 +468,10 @@ def check_rot(case, ctx):
     p0, b0, h0, t0 = eng.detect(img_r.copy(), rot=0)
     ctx.executed(2)
     desc = f'rotation {k}, page {img.shape[:2]}, ds={ds}, ridges (in the rotated frame) {ridges}'
+    if any(rem):
+        desc += f' (page sides modulo ds, as analysed: rows {img_r.shape[0] % ds}, columns {img_r.shape[1] % ds})'
     K = f'{ID}/detect/rot{k}'
+    sfx = f'/{REM_KEY}' if any(rem) else ''
     if not check_lines(b0, h0, t0, ridges, ds, ctx, f'{ID}/detect/unrotated', desc, case):
         return
     if len(b1) != len(b0) or len(p1) != len(p0):
@@ -459,7 +483,7 @@ def check_rot(case, ctx):
             g = np.asarray(g, dtype=float)
             if g.shape != want.shape or nmax(np.abs(g - want)) > 1.0 + 1e-3:      # outlines are float32
                 off = float(np.abs(g - want).max()) if g.shape == want.shape else None
-                ctx.violation('rotated-pass-in-original-coordinates', f'{K}/{name}-not-in-original-coordinates',
+                ctx.violation('rotated-pass-in-original-coordinates', f'{K}/{name}-not-in-original-coordinates{sfx}',
                               f'{desc}: {name} {g.round(1).tolist()} should be {want.round(1).tolist()} in the un-rotated page (max offset {off})', case)
                 return
     if [list(map(float, h)) for h in h1] != [list(map(float, h)) for h in h0]:
@@ -487,6 +511,8 @@ def check_rot(case, ctx):
     ctx.outcome((k, len(b1), len(p1)))
     if case.get('same_row'):
         ctx.tag('two-lines-starting-on-the-same-row')
+    if any(rem) and k and b1:
+        ctx.tag(REM_KEY)
     if k and shape_m[0] != shape_m[1] and b1:
         ctx.nontrivial((k, case['shape'], ds, tuple(case['combo'])), 'rotated-non-square-pages')
 
@@ -536,8 +562,13 @@ def check_rotseq(case, ctx):
     enc[:, :, 1] = np.clip(np.round(maps[:, :, 1] * 8), 0, 255)
     enc[:, :, 2] = np.clip(np.round(maps[:, :, 2] * 255), 0, 255)
     img_r = np.repeat(np.repeat(enc, ds, axis=0), ds, axis=1)
+    rem = tuple(case.get('rem', (0, 0)))
+    if any(rem):                                                # page sides that are not multiples of ds: the real resize rounds the map shape
+        img_r = np.pad(img_r, ((0, rem[0]), (0, rem[1]), (0, 0)))
+    sfx = f'/{REM_KEY}' if any(rem) else ''
+    rem_found = 0
     page = np.rot90(img_r, k=-seq[0]).copy()                    # the first pass of the sequence sees the ridges horizontally
-    ctx.state(('rotseq', tuple(seq), case['shape'], ds, tuple(case['combo'])))
+    ctx.state(('rotseq', tuple(seq), case['shape'], ds, tuple(case['combo'])) + ((rem,) if 'rem' in case else ()))
     eng = image_engine(ds)
     desc = f'page {page.shape[:2]} analysed by one engine in orientations {seq} in turn, ds={ds}, ridges (as seen in orientation {seq[0]}) {ridges}'
     found = 0
@@ -561,9 +592,11 @@ def check_rotseq(case, ctx):
                 g = np.asarray(g, dtype=float)
                 if g.shape != want.shape or nmax(np.abs(g - want)) > 1.0 + 1e-3:
                     off = float(np.abs(g - want).max()) if g.shape == want.shape else None
-                    ctx.violation('rotated-pass-in-original-coordinates', f'{K}/{name}-not-in-original-coordinates',
+                    ctx.violation('rotated-pass-in-original-coordinates', f'{K}/{name}-not-in-original-coordinates{sfx}',
                                   f'{desc}: pass {k}: {name} {g.round(1).tolist()} should be {want.round(1).tolist()} (max offset {off})', case)
                     return
+        if k and b1:
+            rem_found += 1
         if [list(map(float, h)) for h in h1] != [list(map(float, h)) for h in h0]:
             ctx.violation('heights-match', f'{K}/heights-differ', f'{desc}: pass {k}: {h1} vs {h0}', case)
             return
@@ -590,6 +623,8 @@ def check_rotseq(case, ctx):
                                   f'{[np.asarray(b).round(1).tolist() for b in b2]} instead of {[np.asarray(b).round(1).tolist() for b in b1]}', case)
                     return
     ctx.outcome(('rotseq', tuple(seq), found))
+    if any(rem) and rem_found:
+        ctx.tag(REM_KEY + '/real-network-resize')
     if found >= len(seq):
         ctx.nontrivial(('rotseq', tuple(seq), case['shape'], ds, tuple(case['combo'])), 'orientations-in-turn-on-one-engine')
 
@@ -720,12 +755,13 @@ def describe(tier):
     return {
         'rule': 'single ridges: full product row(4) x offset(2) x length(4) x slope(3) x thickness(3) x heights(3) x end-points(2) x ds; pairs / triples / same-row '
                 'pairs over the 8-variant ridge alphabet; rotations 0..3 x 3 page shapes x ds{1,4} x all 1-2 ridge combinations. state = distinct map. '
-                'Non-trivial: maps with several ridges; rotated passes on non-square pages.',
+                'Page sides modulo the factor: all (rows, columns) residue classes for the factors in rem_ds x rotations x page shapes x 2 ridge sets (stub network), '
+                'and for rem_ds_real through the real get_maps with orientations 0,1,2,3 in turn. Non-trivial: maps with several ridges; rotated passes on non-square pages.',
         'bounds': BOUNDS[tier],
         'alphabets': {'rows': ROWS, 'x0': X0S, 'lengths': LENS, 'slopes': SLOPES, 'thickness': THICK, 'heights': HTS, 'ds': DSS, 'ridge_variants': ALPHA8,
                       'rotated_map_shapes': ROT_SHAPES},
         'assumptions': ['end points within 3 map px, rows within (1 + thickness/2) map px (+ slope x 3), heights exact for constant maps',
                         'the rotated pass is compared with the exact inverse rot90 of the layout decoded from the rotated image, tolerance 1 px'],
-        'min_nontrivial': 100, 'required_tags': ['same-maps-object-decoded-again', 'skewed-page-neighbouring-ridges-overlap-in-rows', 'network-out-of-memory-injected', 'orientations-in-turn-on-one-engine', 'several-ridges', 'with-end-point-responses', 'sloped-ridges', 'rotated-non-square-pages',
+        'min_nontrivial': 100, 'required_tags': [REM_KEY, REM_KEY + '/real-network-resize', 'same-maps-object-decoded-again', 'skewed-page-neighbouring-ridges-overlap-in-rows', 'network-out-of-memory-injected', 'orientations-in-turn-on-one-engine', 'several-ridges', 'with-end-point-responses', 'sloped-ridges', 'rotated-non-square-pages',
                           'two-lines-starting-on-the-same-row', 'print-size-changes-between-pages', 'adaptive-factor-changed', 'page-exceeds-the-pixel-budget', 'more-than-255-ridges', 'non-default-engine-options', 'ridges-next-to-the-map-borders'],
     }
